@@ -53,6 +53,7 @@ type FuncContract struct {
 	ResultNames []string
 	Requires    []Clause
 	Ensures     []Clause
+	Assumes     []Clause // postconditions assumed at call sites but NOT proved (each is listed as an assumption)
 	Finals      []Clause // assertions at every return, with the function's locals in scope (not exported to callers)
 	Modifies    []ast.Expr
 	ModAll      bool // no modifies clause given, or `modifies *`
@@ -218,6 +219,12 @@ func (fc *FuncContract) addClause(word, rest, where string) error {
 			return err
 		}
 		fc.Ensures = append(fc.Ensures, c)
+	case "assume":
+		c, err := parseLabeled("assume", rest, where)
+		if err != nil {
+			return err
+		}
+		fc.Assumes = append(fc.Assumes, c)
 	case "final":
 		c, err := parseLabeled("final", rest, where)
 		if err != nil {
